@@ -1101,8 +1101,8 @@ def model_request(case, obs=None):
         # compared with the implementation's uninterrupted AND resumed runs
         if not obs or not isinstance(obs.get("a"), dict) or obs["a"].get("infra") is None or not S.is_valid_layout(scn):
             return None
-        if _min_rate_truncated(scn, obs["a"]["infra"]):
-            return None      # see ASSUMPTIONS: the code truncates a fractional minimum pilot; oracle only
+        # (a fractional minimum pilot used to be truncated by the code — finding F20, repaired in /repo fcfc030;
+        #  the sub-class is compared with the model like every other one now)
         return {"sim": None, "reg": None, "sorted": _sorted_request(scn, obs["a"]["infra"])}
     req = {"sim": S.model_request(scn, fail_at={k}, resume=True), "reg": None}
     if obs and isinstance(obs.get("c"), dict) and obs["c"].get("store"):
@@ -1566,7 +1566,7 @@ def features(case, obs):
     if obs.get("c3") is not None:
         f.append("two_interruptions:gap=" + str(min(3, obs["c3"]["k2"] - k)))
     if _is_real(scn) and not scn.get("stochastic"):
-        f.append("model=" + ("oracle_only:min_rate_truncated" if _min_rate_truncated(scn, a.get("infra") or {"minp": []})
+        f.append("model=" + ("composition:fractional_min_pilot" if _min_rate_truncated(scn, a.get("infra") or {"minp": []})
                              else "sorted_composition"))
     if scn.get("stochastic"):
         f.append("stochastic_network" + ("_early" if scn["stochastic"]["early"] else ""))
